@@ -328,11 +328,15 @@ def gen_run_jobs(ctx, n):
     plan = [
         dict(kind='hex', cos_thresh=0.99, dist_thresh=0.0),
         dict(kind='tet', cos_thresh=0.99, dist_thresh=0.0),
-        dict(kind='tet', cos_thresh=0.95, dist_thresh=0.0, mat='shear'),
+        # creased (non-flat, planar-faced) bricks with cos_thresh strictly above every
+        # non-coplanar dihedral cosine (crease cosines 0.995 and 0.99875): volume must be kept
+        dict(kind='tet', cos_thresh=0.9999, dist_thresh=0.0, mat='identity', n=[4, 2, 2], elem_num=2,
+             scale=1.0, crease={'i0': 1, 'D': 20, 's': 1, 'Dx': 40, 'Dy': 40}),
         dict(kind='hex', cos_thresh=0.999, dist_thresh=1.1, mat='identity', n=[3, 2, 4], elem_num=2,
              scale=1.0),
         dict(kind='tet', cos_thresh=0.0, dist_thresh=0.0, mat='identity', elem_num=8),
-        dict(kind='hex', cos_thresh=0.999, dist_thresh=0.0, mat='rot3', elem_num=1000),
+        dict(kind='hex', cos_thresh=0.9999, dist_thresh=0.0, mat='shear', n=[4, 2, 2], elem_num=2,
+             crease={'i0': 1, 'D': 20, 's': 1, 'Dx': 40, 'Dy': 40}),
     ]
     for i in range(n):
         p = dict(plan[i]) if i < len(plan) else {}
@@ -354,9 +358,14 @@ def gen_run_jobs(ctx, n):
             node_perm = list(range(n_nodes))
             rng.shuffle(node_perm)
         cos_t = p.get('cos_thresh', rng.choice([0.999, 0.99, 0.95, 0.9, 0.7, 0.5, 0.2]))
+        crease = p.get('crease')
+        if i >= len(plan) and rng.random() < 0.35 and nn[0] >= 2:
+            crease = {'i0': rng.randint(1, nn[0] - 1), 'D': 20, 's': rng.choice([1, 1, 2]),
+                      'Dx': rng.choice([20, 40, 80]), 'Dy': rng.choice([20, 40])}
+            cos_t = rng.choice([0.9999, 0.99999, 1.0, 0.999, 0.99])
         # relative to the shortest edge of the (transformed) lattice
         dist_t = p.get('dist_thresh', rng.choice([0.0, 0.0, 0.0, 1.1, 2.5])) * scale * \
-            {'identity': 1.0, 'shear': 2.3, 'rot3': 3.0, 'refl3': 3.0}[mat]
+            {'identity': 1.0, 'shear': 2.3, 'rot3': 3.0, 'refl3': 3.0}[mat] * (20.0 if crease else 1.0)
         elem_num = p.get('elem_num', rng.choice([1, 2, 3, 5, 8, 1000]))
         knns = [1, 2, 3, 4]
         transfers = []
@@ -376,7 +385,7 @@ def gen_run_jobs(ctx, n):
                         tid += 1
         jobs.append({'id': i, 'kind': kind, 'n': nn, 'mat': mat, 'M': MATS[mat],
                      't': [rng.randint(-5, 5) for _ in range(3)], 'scale': scale,
-                     'idmode': idmode, 'node_ids': node_ids, 'node_perm': node_perm,
+                     'idmode': idmode, 'node_ids': node_ids, 'node_perm': node_perm, 'crease': crease,
                      'elem_num': elem_num, 'cos_thresh': cos_t, 'dist_thresh': dist_t,
                      'knns': knns, 'transfers': transfers})
     return jobs
@@ -537,8 +546,9 @@ def eval_runs(ctx, rjobs, rres):
     lines = [HEADER]
     per_run = []
     for job, r in zip(rjobs, rres):
-        descr = {k: job[k] for k in ('kind', 'n', 'mat', 't', 'scale', 'idmode', 'elem_num',
-                                     'cos_thresh', 'dist_thresh')}
+        descr = {k: job.get(k) for k in ('kind', 'n', 'mat', 't', 'scale', 'idmode', 'elem_num',
+                                         'cos_thresh', 'dist_thresh', 'crease')}
+        ctx.count('run_creased:' + ('yes' if job.get('crease') else 'no'))
         ctx.count('run_kind:' + job['kind'])
         ctx.count('run_mat:' + job['mat'])
         ctx.count('run_idmode:' + job['idmode'])
